@@ -329,7 +329,10 @@ def run(facts, rep, tier, ctx):
         c09.resolver_rules(facts, rep, ws, rule="R01.5r")
         # a failed overlay removal must leave the union unchanged: marker only after the upper copy is gone
         from . import c10
-        c10.marker_rules(facts, rep, ws, prefix="R01.5m", only=("R10.1", "R10.3"))
+        c10.marker_rules(facts, rep, ws, prefix="R01.5m", only=("R10.1", "R10.3", "R10.5"))
+        # the altroot translator decides nothing about names: every valid component name (dotted ones included) reaches the inner
+        # filesystem, so the adapter shows the same tree as the filesystem it wraps (shared with C07 R07.1-R07.3)
+        c07.gate_rules(facts, c10._Prefixed(rep, "R01.5g"), ws, _D)
         # every path the overlay builds on a layer is relative to that layer (an absolute join leaves a layer that is a
         # sub-directory of a filesystem: markers and copies land outside it and the removals they record do not take effect)
         c09.relative_join_rules(facts, rep, ws, rule="R01.5j")
@@ -380,7 +383,8 @@ def run(facts, rep, tier, ctx):
         k5 = c07.delegation(facts, A, wa, rule="R01.5") + c09.table_u(facts, A, wa, rule="R01.5") + \
             c09.materialisation_rules(facts, A, wa, rule="R01.5p") + c09.listing_rules(facts, A, wa, rule="R01.5l") + \
             c09.resolver_rules(facts, A, wa, rule="R01.5r") + \
-            c10.marker_rules(facts, A, wa, prefix="R01.5m", only=("R10.1", "R10.3")) + c09.relative_join_rules(facts, A, wa, rule="R01.5j")
+            c10.marker_rules(facts, A, wa, prefix="R01.5m", only=("R10.1", "R10.3", "R10.5")) + c09.relative_join_rules(facts, A, wa, rule="R01.5j")
+        c07.gate_rules(facts, c10._Prefixed(A, "R01.5g"), wa, _D)
         rep.floor("async-world contract obligations", k + k2 + k3 + k4 + k5, 150)
     rep.assume("Table O (what the OS enforces per std call) is frozen from POSIX/Linux semantics")
     rep.assume("a writer's flush is not a primitive of this property's domain (touching a path while a handle is open is excluded)")
